@@ -51,4 +51,10 @@ def cells(tier):
         out += grid(MON, [1, 2], ["A3|M2/2", "A1|M2/1|A1", "sM3/2|A1", "dM3/2|A1"], ["cancel0", "cgroupM", "call+flush", "flush+gac"],
                     ["plain", "slowecb"], [["ret", "exc"]], prefix="T ",
                     skip=lambda s, rn, dn, cn, o: cn == "slowecb" and "flush" in dn and s == 2)
+    # the size is set while the pool has nothing in flight (a fresh or a drained pool), and is fixed from then on
+    for old, new in [("inf", 2), ("inf", 1), (3, 1), (1, 2)]:
+        sc = scen(pool(old), [[["set_size", new], A("A", 3)], [A("B", 1)]], outcomes=["ret"])
+        out.append(cell(f"s{old}->{new} while idle, then A3|B1", sc, MON))
+    sc = scen(pool("inf"), [[A("A", 2)], [FLUSH, ["set_size", 1, {"when": "quiet_idle"}], A("B", 2)]], outcomes=["ret"])
+    out.append(cell("sinf A2|flush,size1@idle,B2", sc, MON))
     return out
